@@ -91,6 +91,18 @@ CHECKS["C08"] = dict(
     technique="TLA+ transcription with exact rational arithmetic; TLC evaluates the exhaustive bounded case space and logged random cases against the real classes",
     design="5 C08")
 
+CHECKS["C07"] = dict(
+    text=("StrBin.tla defines the computed buffer length (fixed / first-match lookup via Criteria.tla / referenced raw or calibrated "
+          "value through a linear adjustment), binary extraction (left-padded), the raw string buffer (right-padded) and the text bytes "
+          "for whole-buffer, termination-character (searched at code-unit boundaries) and leading-size delimiting, error outcomes and the "
+          "cursor advance. TLC evaluates it on the enumerated small space (1..41-bit fields at offsets 0..7, reference values 0..5, three "
+          "delimiters x three length specifications, 1- and 2-byte code units) and on random buffers up to 2 kB in every supported "
+          "encoding, and compares with the real parse_value built by constructors and from XML."),
+    note="Character codecs applied to the selected bytes are trusted; zero-length strings, non-integral/negative lengths and over-reads "
+         "are outside the claimed domain; plain UTF-16/32 with a byteOrder attribute are not generated. " + TRUSTED,
+    technique="TLA+ transcription of length computation and delimiting; TLC evaluates the bounded case space and logged random cases against the real classes",
+    design="5 C07")
+
 NOT_YET = {}
 for _i in range(1, 21):
     _p = f"C{_i:02d}"
